@@ -61,36 +61,44 @@ Theorem entry_roundtrip : forall m st brace ws0 typ ws1 ws2 key wsk comma fs tra
 Proof. exact entry_reads_gen. Qed.
 Print Assumptions entry_roundtrip.
 
-(* FILE ROUND TRIP: a file is a sequence of items -- entries (as above), @string definitions,
-   @preamble items, @comment items (keywords in any letter case, either delimiter) -- each
-   preceded by arbitrary junk text without '@', and followed by junk without '@'; macros may
-   be defined, redefined and used (any letter case) later in the file, the months are
-   predefined.  Reading the rendering in capture mode returns a database whose entries
-   (key, lower-cased type, written type, fields, persons) and preamble are exactly what the
-   items denote ([denote_items]: @string only extends the macro table; @preamble appends the
-   normalised concatenation; an entry whose key is new ignoring case is appended with the
-   first field of each name ignoring case, in source order, parts concatenated and
-   whitespace-normalised; a repeated key changes nothing).
-   PARTIAL: the domain excludes author / editor fields ([plain_file]; person splitting is C04
-   and is covered by the tie), and says nothing about which problems are reported. *)
-Theorem file_roundtrip_partial : forall items tail,
-  wf_file month_macros items -> plain_file month_macros items -> no_at tail ->
-  exists d s, parse_bib Capture (file_text2 items tail) = Ret d s /\ view d = denote_items month_macros items ([], []).
-Proof. exact file_roundtrip_lemma. Qed.
-Print Assumptions file_roundtrip_partial.
+(* FILE ROUND TRIP -- the property's statement on its domain.  A file is a sequence of items:
+   entries (as in entry_roundtrip, author / editor fields included), @string definitions and
+   redefinitions, @preamble items, @comment items (keywords in any letter case, either
+   delimiter), each preceded by arbitrary junk text without '@' and followed by such junk;
+   macros may be defined, redefined and used (any letter case) later in the file; the months are
+   predefined.  [denote_items2] is what the items denote, computed without any parser state:
+   @string only extends the case-insensitive macro table; @preamble appends the normalised
+   concatenation; an entry whose key is new (ignoring case) is appended with key, lower-cased
+   type, written type, the first field of each name (ignoring case) in source order -- a plain
+   field as its parts concatenated and whitespace-normalised, an author / editor field as the
+   Persons (C04: person_tokens_spec, von_is_longest_run, ...) of the names split_name_list
+   (C12: split_name_list_spec) finds in it -- and the problems: one 'duplicate field' per later
+   duplicate, one 'bad name' per name with too many commas, one 'repeated entry' per entry
+   whose key repeats an earlier one (which then changes nothing).
+   THEOREM: reading the rendering in capture mode returns exactly that database and reports
+   exactly those problems, in that order -- and nothing else.
+   Domain (what wf_file / the hypothesis still exclude): macro uses that are undefined at the
+   point of use; entries without a key; junk containing '@' (it would start a command);
+   values that are not brace-balanced or nest deeper than 100; a parenthesised entry whose key
+   is glued to ')'; names on which Person raises BibTeXError (more than 100 braces:
+   [denote_items2] is then None).  Non-ASCII cased letters in keys: the model's lower is ASCII. *)
+Theorem file_roundtrip : forall items tail v e,
+  wf_file month_macros items -> no_at tail -> denote_items2 month_macros items ([], []) = Some (v, e) ->
+  exists d s, parse_bib Capture (file_text2 items tail) = Ret d s /\ view d = v /\ p_errs s = map data_err e.
+Proof. exact file_roundtrip_full. Qed.
+Print Assumptions file_roundtrip.
 
-(* SURFACE INDEPENDENCE (same domain): two files whose items denote the same database -- whatever
+(* SURFACE INDEPENDENCE: two files whose items denote the same database and problems -- whatever
    their delimiters, quoting, concatenation splits, letter case of keywords and macro uses,
    whitespace and line ends, trailing commas, junk text and @comment items -- are read as the
-   same database *)
-Theorem surface_independence_partial : forall items1 tail1 items2 tail2,
-  wf_file month_macros items1 -> plain_file month_macros items1 -> no_at tail1 ->
-  wf_file month_macros items2 -> plain_file month_macros items2 -> no_at tail2 ->
-  denote_items month_macros items1 ([], []) = denote_items month_macros items2 ([], []) ->
+   same database with the same reports *)
+Theorem surface_independence : forall items1 tail1 items2 tail2 v e,
+  wf_file month_macros items1 -> no_at tail1 -> wf_file month_macros items2 -> no_at tail2 ->
+  denote_items2 month_macros items1 ([], []) = Some (v, e) -> denote_items2 month_macros items2 ([], []) = Some (v, e) ->
   exists d1 s1 d2 s2, parse_bib Capture (file_text2 items1 tail1) = Ret d1 s1 /\
-                      parse_bib Capture (file_text2 items2 tail2) = Ret d2 s2 /\ view d1 = view d2.
-Proof. exact surface_independence_lemma. Qed.
-Print Assumptions surface_independence_partial.
+                      parse_bib Capture (file_text2 items2 tail2) = Ret d2 s2 /\ view d1 = view d2 /\ p_errs s1 = p_errs s2.
+Proof. exact surface_independence_full. Qed.
+Print Assumptions surface_independence.
 
 (* FIELD ORDER: fields (other than author/editor) whose names differ pairwise ignoring case
    are all kept, in source order, under the spelling they were written with, each value
@@ -154,7 +162,8 @@ Definition ex_items : list (str * sitem) :=
         [ (s2l "
   ", s2l "Title", s2l " ", [ (s2l " ", SDelim true (s2l "A  {B}"), s2l " "); ([], SMacro (s2l "MM"), []); (s2l "
  ", SNumber (s2l "12"), s2l " ") ]);
-          ([], s2l "TITLE", [], [ ([], SMacro (s2l "jan"), []) ]) ] true (s2l "
+          ([], s2l "TITLE", [], [ ([], SMacro (s2l "jan"), []) ]);
+          ([], s2l "Author", [], [ ([], SDelim false (s2l "von Eck, Carl and A, B, C, D"), []) ]) ] true (s2l "
 "));
     (s2l " % ", IEntry true [] (s2l "misc") [] [] (s2l "K:1") [] false [] false []);
     ([], IPreamble true [] (s2l "preamble") [] [ ([], SDelim false (s2l " p  q "), []) ]);
@@ -164,20 +173,21 @@ Example ex_file :
 ") = s2l "junk, @STRING{ mm =""Em""}
 @Comment{ ignored } text @ Book( k:1,
   Title = ""A  {B}"" #MM#
- 12 ,TITLE=jan,
+ 12 ,TITLE=jan,Author={von Eck, Carl and A, B, C, D},
 ) % @misc{K:1}@preamble{{ p  q }}@misc{k2}
 "
-  /\ denote_items month_macros ex_items ([], [])
-     = ([ (s2l "k:1", s2l "book", s2l "Book", [(s2l "Title", s2l "A {B}Em12")], []);
-          (s2l "k2", s2l "misc", s2l "misc", [], []) ], [s2l "p q"]).
+  /\ denote_items2 month_macros ex_items ([], [])
+     = Some (([ (s2l "k:1", s2l "book", s2l "Book", [(s2l "Title", s2l "A {B}Em12")],
+                 [(s2l "Author", [mkPerson [s2l "Carl"] [] [s2l "von"] [s2l "Eck"] [];
+                                  mkPerson [s2l "C"] [s2l "D"] [] [s2l "A"] [s2l "B"]])]);
+                (s2l "k2", s2l "misc", s2l "misc", [], []) ], [s2l "p q"]),
+             [E_DUPFIELD; E_NAME; E_REPEATED]).
 Proof. vm_compute. split; reflexivity. Qed.
-Example ex_file_wf : wf_file month_macros ex_items /\ plain_file month_macros ex_items.
+Example ex_file_wf : wf_file month_macros ex_items.
 Proof.
-  split.
-  - cbn [wf_file ex_items]. unfold no_at, sp.
-    repeat split; try reflexivity; try discriminate; try (intros x Hx; cbn in Hx; repeat (destruct Hx as [<-|Hx]; [reflexivity|]); contradiction);
+  cbn [wf_file ex_items]. unfold no_at, sp.
+  repeat split; try reflexivity; try discriminate; try (intros x Hx; cbn in Hx; repeat (destruct Hx as [<-|Hx]; [reflexivity|]); contradiction);
       try (repeat constructor; try reflexivity; try discriminate; cbn; congruence); try (intros H; discriminate H); auto.
-  - cbn. unfold plain_item, plain_fields. cbn. repeat split; auto; intros f Hf; repeat (destruct Hf as [<-|Hf]; [reflexivity|]); contradiction.
 Qed.
 Example ex_normalize : normalize_whitespace (s2l "  two   words
  next ") = s2l "two words next".
